@@ -247,7 +247,12 @@ CORE = lambda p: p["ncan"] <= 1 and p["waiter"] in ("result", "wait")
 PLAN = {
     "quick": [dict(harness="c02.protocol", bound=1), dict(harness="c02.protocol", bound=2, select=CORE),
               dict(harness="c02.protocol.lines", bound=1, select=lambda p: p["ncan"] == 1 and p["waiter"] == "wait")],
-    "thorough": [dict(harness="c02.protocol", bound=2), dict(harness="c02.protocol", bound=3, select=CORE),
+    # thorough (sized with tools/size_plan.py): a third deviation over all core cells is ~2.5 h on 16 cores;
+    # it is spent where a caller's cancel() races a cancellation of the underlying work
+    "thorough": [dict(harness="c02.protocol", bound=2),
+                 dict(harness="c02.protocol", bound=3,
+                      select=lambda p: p["ncan"] == 1 and p["waiter"] == "wait" and p["how"] == "cancel_inner"),
                  dict(harness="c02.protocol.lines", bound=1),
-                 dict(harness="c02.protocol.lines", bound=2, select=lambda p: p["ncan"] == 1 and p["waiter"] == "wait")],
+                 dict(harness="c02.protocol.lines", bound=2,
+                      select=lambda p: p["ncan"] == 1 and p["waiter"] == "wait" and p["how"] != "value")],
 }
